@@ -133,8 +133,9 @@ Fixpoint scan_osc_payload (inp : list Z) (acc : list Z) : option (list Z * list 
   | b :: rest =>
       if (b =? 7) || (b =? 156) then Some (rev acc, rest)
       else match acc with
-           | 27 :: acc' => if b =? 92 then Some (rev acc', rest) else scan_osc_payload rest (b :: acc)
-           | _ => scan_osc_payload rest (b :: acc)
+           | a :: acc' =>
+               if (a =? 27) && (b =? 92) then Some (rev acc', rest) else scan_osc_payload rest (b :: acc)
+           | [] => scan_osc_payload rest (b :: acc)
            end
   end.
 
